@@ -257,7 +257,21 @@ func init() {
 			excl := 0
 			o := findingOpts(r)
 			o.Excluded = &excl
-			v := newVariant(t, "v0", o, gen.KOpts{}, nil)
+			// a third of the cases use one of the denser profiles the run-time properties use (many oneofs, every
+			// scalar kind and cast type, heavy qualification, rich per-field configuration)
+			k := gen.KOpts{}
+			switch rapid.IntRange(0, 8).Draw(t, "profile") {
+			case 0:
+				o.OneofHeavy = true
+			case 1:
+				o.ScalarDense = true
+			case 2:
+				o.QualHeavy = true
+			case 3:
+				k.Rich = true
+				o.Comments = true
+			}
+			v := newVariant(t, "v0", o, k, nil)
 			r.Excluded("shapes", excl)
 			return &Replay{Variants: []*pipeline.Variant{v}}
 		},
